@@ -161,12 +161,22 @@ def ask(u, q):
     return "?"
 
 
+CASEI_QUERIES = [("name", "MICROFARAD"), ("name", "Kilofurlong"), ("name", "MEGAPARSEC"), ("conv", "microfarad", "farad"), ("conv", "uF", "farad"),
+                 ("conv", "kilofurlong", "meter"), ("conv", "megaparsec", "meter"), ("parse", "2 NanoHenry"), ("conv", "nH", "henry"), ("name", "kilometer"),
+                 ("name", "KILOMETER"), ("conv", "kilometer", "meter"), ("dim", "MilliSecond"), ("conv", "millisecond", "second")]
+
+
 def drive_default(chk, rng, ntraces, length):
+    import json
     import pint
     events, tid = [], 0
     for t in range(ntraces):
         tid += 1
-        u = pint.UnitRegistry()
+        casei = (t % 3 == 2)
+        mk = (lambda: pint.UnitRegistry(case_sensitive=False)) if casei else pint.UnitRegistry
+        QS = (QUERIES + CASEI_QUERIES) if casei else QUERIES
+        tag = "casei" if casei else "plain"
+        u = mk()
         state = {"active": [], "defs": [], "sys": "<initial>"}
         log = []
         for i in range(length):
@@ -195,15 +205,15 @@ def drive_default(chk, rng, ntraces, length):
                 state["sys"] = str(s)
                 log.append({"tid": tid, "ev": "sys", "name": str(s)})
             else:
-                q = rng.choice(QUERIES)
-                log.append({"tid": tid, "ev": "query", "q": list(q), "ans": ask(u, q)})
+                q = rng.choice(QS)
+                log.append({"tid": tid, "ev": "query", "q": list(q) + [tag], "ans": json.dumps(ask(u, q), sort_keys=True)})
         # final: all questions, then a fresh registry brought into the same declarative state asked the same
-        order = list(QUERIES)
+        order = list(QS)
         rng.shuffle(order)
         for q in order:
-            log.append({"tid": tid, "ev": "query", "q": list(q), "ans": ask(u, q)})
+            log.append({"tid": tid, "ev": "query", "q": list(q) + [tag], "ans": json.dumps(ask(u, q), sort_keys=True)})
         tid += 1
-        u2 = pint.UnitRegistry()
+        u2 = mk()
         if "smoot" in state["defs"]:
             u2.define("smoot = 1.7018 * meter")
             log.append({"tid": tid, "ev": "define", "name": "smoot"})
@@ -213,8 +223,8 @@ def drive_default(chk, rng, ntraces, length):
         for c, kw in reversed(state["active"]):
             u2.enable_contexts(c, **kw)
             log.append({"tid": tid, "ev": "enable", "ctx": c, "kw": sorted(kw.items()), "res": "ok"})
-        for q in QUERIES:
-            log.append({"tid": tid, "ev": "query", "q": list(q), "ans": ask(u2, q), "fresh": True})
+        for q in reversed(order):          # the opposite order: a question that depends on an earlier one shows
+            log.append({"tid": tid, "ev": "query", "q": list(q) + [tag], "ans": json.dumps(ask(u2, q), sort_keys=True), "fresh": True})
         for e in log:
             e["_state"] = None
         events.append(log)
